@@ -119,7 +119,7 @@ def check(case):
     if any(x != x for x in a + b):
         return DISCARD('nan', labels)
     operand_temporal = F.n_temporal(p) >= 1 or (law in ('implies', 'since-exp', 'until-exp') and F.n_temporal(q) >= 1)
-    nontrivial = (operand_temporal or n < case['b'] + case['d']) and len(set(a)) > 1
+    nontrivial = (operand_temporal or n < case['b'] + case['d'] or max(case['b'], case['d']) >= 200) and len(set(a)) > 1
     if len(a) != len(b) or any(x != y for x, y in zip(a, b)):
         return FAIL('law:%s:%s' % (law, kind), desc + '\nlhs: %s\nrhs: %s' % (fmt_vals(a), fmt_vals(b)), labels)
     return PASS(nontrivial, labels)
@@ -287,7 +287,33 @@ def candidates2(case):
         yield c
 
 
+@st.composite
+def giant_law_cases(draw, tier):
+    """The duality and composition laws with windows of 200..1100 samples (around 256, 512, 1024) on mostly flat traces with
+    isolated extreme samples; discrete time, offline and online."""
+    from ..common import spiky_trace, GIANT_WIDTHS
+    kind = draw(st.sampled_from(['dt_off', 'dt_off', 'dt_on']))
+    law = draw(st.sampled_from(['not-ev[]', 'not-once[]', 'ev-ev', 'once-once'] if kind == 'dt_off' else ['not-once[]', 'once-once']))
+    vs = ['x', 'y']
+    x = ('var', draw(st.sampled_from(vs)))
+    p = draw(st.sampled_from([x, x, ('pred', '>=', x, ('const', 1.0)), ('un', 'not', ('pred', '<', x, ('var', 'y'))), ('un', 'abs', x)]))
+    width = draw(st.sampled_from(GIANT_WIDTHS))
+    a = draw(st.sampled_from([0, 0, 1, 3, 17, 100, 300]))
+    b = a + width
+    d = draw(st.sampled_from([0, 1, 2, 5, 256, 300]))
+    c = draw(st.sampled_from([0, min(d, 1), min(d, 3), d]))
+    if law in ('ev-ev', 'once-once') and draw(st.booleans()):
+        a, b, c, d = c, d, a, b               # the wide window inside the narrow one
+    reach = b + (d if law in ('ev-ev', 'once-once') else 0)
+    lo = a + (c if law in ('ev-ev', 'once-once') else 0)
+    n = draw(st.sampled_from([1, 2, max(1, lo), lo + 1, lo + 2, max(1, reach - 1), reach, reach + 1, reach + 2, reach + 3, reach + 10, reach + 50,
+                              reach + 200, reach + 500, 2 * reach + 5]))
+    tr = draw(spiky_trace(vs, n))
+    return {'law': law, 'p': p, 'q': ('var', 'y'), 'a': a, 'b': b, 'c': c, 'd': d, 'vars': vs, 'trace': tr, 'kind': kind, 'spell': None}
+
+
 LANES = [
+    Lane('giant', giant_law_cases, check, 80, 800, None),
     Lane('dt_off', lambda tier: cases(tier, 'dt_off'), check, 4000, 60000, candidates),
     Lane('dt_on', lambda tier: cases(tier, 'dt_on'), check, 3000, 40000, candidates),
     Lane('dt_on_past', lambda tier: cases2(tier, 'dt_on_past'), check2, 2000, 30000, candidates2),
